@@ -8,7 +8,7 @@ under the kind, _coordinator_dead(kind) forgets exactly that entry, and a forgot
 from pyvc.contract import contract, classmodel, specfn, SPEC_TYPES, CLASSES
 from pyvc.ty import V, INT, BOOL, REAL, STR, NONE, EXC, BYTES, Opt, Tup, List, Set, Dict, Ref, Opaque
 from pyvc.exec_base import Fut
-from .common import enum_from_repo
+from .common import enum_from_repo, TP
 from . import sender as S, sender_txn, sender_txn_offsets      # noqa: F401
 
 MOD = S.MOD
@@ -122,3 +122,70 @@ for _h, _kind in (("EndTxnHandler", "TRANSACTION"), ("AddPartitionsToTxnHandler"
         ("assert", "the-coordinator-declared-dead-is-the-kind-that-answered-this-request", "a0 == CoordinationType.%s" % _kind)])
     if "C16" not in _c.props:
         _c.props.append("C16")
+
+
+# ---- the task bodies that send the transactional requests: each goes to the coordinator that owns the request -------------
+classmodel("TxnHandlerObj", {})
+_TXN_BODY = dict(havoc_all=True, raises=["KafkaError", "CancelledError"])
+
+
+def _task_body(c, handler_cls, kind, key_expr, handler_args):
+    c.self_("Sender")
+    c.no_class_inv = True
+    c.none_raises = True
+    c.requires("self._txn_manager is not None", "transactional-sender")
+    c.owns("self._txn_manager", "self.client")
+    c.bind("CoordinationType", CT_BIND)
+    c.ghost("$node", INT, "-1")
+    c.call("self._find_coordinator", returns=INT, ghost={"$node": "result"}, **_TXN_BODY,
+           note="Sender._find_coordinator (under contract above): suspends; the coordinator's node id")
+    c.call(handler_cls, returns=Ref("TxnHandlerObj"), post=["fresh(result)"], note=handler_cls + ".__init__: stores its arguments")
+    c.call("handler.do", returns=BOOL, **_TXN_BODY, note="BaseHandler.do: one request/response round with retries' back-off")
+    c.raises("lookup-failed-fatal-or-cancelled", "BaseException")
+    c.hook("before", "self._find_coordinator", [
+        ("assert", "asks-for-the-coordinator-that-owns-this-request", "a0 == CoordinationType.%s and a1 == %s" % (kind, key_expr))])
+    c.hook("before", handler_cls, [("assert", "the-handler-gets-what-the-task-was-started-with", handler_args)])
+    c.hook("before", "handler.do", [("assert", "the-request-goes-to-the-coordinator-just-looked-up", "a0 == $node")])
+
+
+@contract(MOD + ":Sender._do_add_partitions_to_txn", ["C07"])
+def _(c):
+    c.param("tps", Set(TP))
+    _task_body(c, "AddPartitionsToTxnHandler", "TRANSACTION", "self._txn_manager.transactional_id", "a0 == self and a1 == tps")
+
+
+@contract(MOD + ":Sender._do_add_offsets_to_txn", ["C07"])
+def _(c):
+    c.param("group_id", STR)
+    _task_body(c, "AddOffsetsToTxnHandler", "TRANSACTION", "self._txn_manager.transactional_id", "a0 == self and a1 == group_id")
+
+
+@contract(MOD + ":Sender._do_txn_offset_commit", ["C07", "C16"])
+def _(c):
+    """TxnOffsetCommit belongs to the consumer group's coordinator (every other transactional request to the transaction
+    coordinator); a group the producer may not commit to is an abortable error of the transaction"""
+    from .sender_txn_offsets import TM_MODS
+    from .sender_txn import OFFS
+    c.self_("Sender")
+    c.param("offsets", OFFS)
+    c.param("group_id", STR)
+    c.no_class_inv = True
+    c.none_raises = True
+    c.requires("self._txn_manager is not None", "transactional-sender")
+    c.owns("self._txn_manager", "self.client")
+    c.bind("CoordinationType", CT_BIND)
+    c.ghost("$node", INT, "-1")
+    c.call("self._find_coordinator", returns=INT, ghost={"$node": "result"}, havoc_all=True,
+           raises=["GroupAuthorizationFailedError", "KafkaError", "CancelledError"],
+           note="Sender._find_coordinator (under contract above): suspends; the coordinator's node id")
+    c.call("self._txn_manager.error_transaction", modifies=TM_MODS, raises=["AssertionError"],
+           note="TransactionManager.error_transaction (under contract, C16)")
+    c.call("TxnOffsetCommitHandler", returns=Ref("TxnHandlerObj"), post=["fresh(result)"], note="TxnOffsetCommitHandler.__init__: stores its arguments")
+    c.call("handler.do", returns=BOOL, havoc_all=True, raises=["KafkaError", "CancelledError"], note="BaseHandler.do")
+    c.modifies(*TM_MODS)
+    c.raises("lookup-failed-fatal-or-cancelled", "BaseException")
+    c.hook("before", "self._find_coordinator", [
+        ("assert", "asks-for-the-groups-coordinator", "a0 == CoordinationType.GROUP and a1 == group_id")])
+    c.hook("before", "TxnOffsetCommitHandler", [
+        ("assert", "the-handler-gets-what-the-task-was-started-with", "a0 == self and a1 == offsets and a2 == group_id")])
+    c.hook("before", "handler.do", [("assert", "the-request-goes-to-the-coordinator-just-looked-up", "a0 == $node")])
